@@ -309,6 +309,10 @@ def stmt_paths(stmts: list[ast.stmt], limit: int = 4000, opaque_loops: bool = Fa
             if isinstance(st, ast.Break):
                 out.add(tuple(acc + [("exit", "break", "")]))
                 return
+            if isinstance(st, ast.Try) and not st.handlers and not st.orelse:
+                # try/finally without handlers: the body, then the clean-up (a return inside the body ends the path there)
+                run(st.body + st.finalbody + seq[i + 1:], acc)
+                return
             if opaque_loops and isinstance(st, (ast.For, ast.While)):
                 # a nested loop as one step (its own break/continue are its own business)
                 head = f"for {norm_stmt(st.target)} in {norm_stmt(st.iter)}: ..." if isinstance(st, ast.For) else f"while {norm_stmt(st.test)}: ..."
